@@ -293,10 +293,92 @@ func Main(types []TypeEntry) {
 			r.oneCase(e, m, false)
 		}
 		r.oneCase(e, 0, true)
+		if e.Mask != 0 && e.Mask&(e.Mask-1) != 0 { // at least two handlers: proper subsets exist
+			low := e.Mask & -e.Mask
+			rest := e.Mask &^ low
+			r.reconfigCase(e, []int{low, 0, rest, e.Mask, low})
+		}
 	}
 	env := &ev.ChildEnv{Dir: *out}
 	if err := env.WriteResult(r.res); err != nil {
 		fmt.Fprintln(os.Stderr, err)
 		os.Exit(4)
 	}
+}
+
+// reconfigCase configures ONE stub several times (Stop and Start again on a fresh connection) with a
+// sequence of configuration-time masks; each session's subscription must depend on that session's
+// request only.
+func (r *runner) reconfigCase(e TypeEntry, seqMasks []int) {
+	r.seq++
+	what := map[string]any{"implemented": fmt.Sprintf("0x%04x", e.Mask), "handlers": maskNames(e.Mask), "scenario": "reconfigure same stub", "configure_masks": fmt.Sprint(seqMasks)}
+	viol := func(sig, msg string) { r.res.Violate("C15/"+sig, msg, what) }
+	r.res.Eval()
+	rec := &Rec{}
+	plugin := e.New(rec)
+	dialed := make(chan *rig.RawRuntime, 8)
+	dial := func(string) (net.Conn, error) {
+		a, b := net.Pipe()
+		rr, err := rig.NewRawRuntime(b)
+		if err != nil {
+			return nil, err
+		}
+		dialed <- rr
+		return a, nil
+	}
+	st, err := stub.New(plugin, stub.WithDialer(dial), stub.WithSocketPath("/nonexistent/verif"), stub.WithPluginName("gen"), stub.WithPluginIdx("42"), stub.WithOnClose(func() {}))
+	if err != nil {
+		viol("new-failed", err.Error())
+		return
+	}
+	for i, m := range seqMasks {
+		rec.mu.Lock()
+		rec.CfgMask = api.EventMask(m)
+		rec.mu.Unlock()
+		startErr := make(chan error, 1)
+		go func() { startErr <- st.Start(context.Background()) }()
+		// the dialer runs inside Start
+		rr, ok := await(dialed, 10*time.Second)
+		if !ok {
+			viol("no-registration", "the stub did not connect")
+			return
+		}
+		if _, ok := await(rr.Registered, 10*time.Second); !ok {
+			viol("no-registration", fmt.Sprintf("session %d: the stub did not register", i))
+			rr.Close()
+			return
+		}
+		ctx, cancel := context.WithTimeout(context.Background(), 10*time.Second)
+		cfg, cerr := rr.Plugin.Configure(ctx, &api.ConfigureRequest{Config: "c", RuntimeName: "rt", RuntimeVersion: "v1", RegistrationTimeout: 5000, RequestTimeout: 2000})
+		cancel()
+		want := m
+		if m == 0 {
+			want = e.Mask
+		}
+		if m&^e.Mask != 0 {
+			if cerr == nil {
+				viol("bad-subscription-accepted", fmt.Sprintf("session %d: mask 0x%04x names unimplemented events but was accepted", i, m))
+			}
+			<-startErr
+			rr.Close()
+			continue
+		}
+		if cerr != nil {
+			viol("reconfigure-rejected", fmt.Sprintf("session %d of the same stub: a legal configuration-time mask 0x%04x (implemented 0x%04x, earlier masks %v) was rejected: %v", i, m, e.Mask, seqMasks[:i], cerr))
+			<-startErr
+			rr.Close()
+			continue
+		}
+		if int(cfg.Events) != want {
+			viol("reconfigure-subscription-differs", fmt.Sprintf("session %d of the same stub: subscribed to 0x%04x, expected 0x%04x (implemented 0x%04x, earlier masks %v)", i, cfg.Events, want, e.Mask, seqMasks[:i]))
+		}
+		if serr, ok := await(startErr, 10*time.Second); !ok || serr != nil {
+			viol("start-failed", fmt.Sprintf("session %d: Start did not succeed (returned=%v err=%v)", i, ok, serr))
+			rr.Close()
+			return
+		}
+		st.Stop()
+		rr.Close()
+	}
+	r.res.Seen(fmt.Sprintf("reconfigure|0x%04x|%d", e.Mask, len(seqMasks)))
 }
